@@ -1361,6 +1361,185 @@ def language_level(ctx, libdir, exe, pats, stats):
 # ----------------------------------------------------------------------------------------------
 # the check
 # ----------------------------------------------------------------------------------------------
+# ---------------------------------------------------------------------------------------------------------------
+# parse level: tre_parse() against its Lean transcription (lean/HawkModel/RexParse.lean), tree against tree
+# ---------------------------------------------------------------------------------------------------------------
+PARSE_HAND = [
+    "", "a", "ab", "a|b", "a|", "|a", "||", "()", "(|)", "(a)", "((a))", "(((a)))", "((a)|b)", "(a)(b)", "(a|b)*c", "(a", "a)", "(a))", "((a)", "(", ")", "a(", "(()", "())",
+    "*", "*a", "+a", "?a", "{1}a", "a**", "a*+", "a+*", "a*?", "a+?", "a??", "a*??", "a{2}{3}", "a{2}*", "a*{2}", "(*a)", "(+)", "a|*b", "^*", "$+", "a{1,2}?", "a{1,2}??",
+    "a{", "a{1", "a{1,", "a{1,2", "a{}", "a{,}", "a{,3}", "a{,0}", "a{0}", "a{0,0}", "a{0,}", "a{1}", "a{1,}", "a{2,1}", "a{x}", "a{1x}", "a{1,x}", "a{1}}", "a}", "{", "}", "a{-1}", "a{1 }", "a{1,2,}",
+    "a{+1}", "a{~2}", "a{#}", "a{1+}", "a{+", "a{ 55", "a{<  ", "a{ 5", "a{1<", "a{ 5i", "a{~", "a{1+2", "a{+1 5", "a{1 5i}", "a{ 1i<3}", "a{2147483647}", "a{2147483648}", "a{99999999999}", "a{0000}", "a{00,01}", "(a){0}", "(a){0}b", "(a){2}", "a{1}{0}",
+    "[", "[a", "[]", "[]]", "[]a]", "[^]", "[^]a]", "[^", "[a-", "[a-]", "[-a]", "[a-b-c]", "[a--]", "[--a]", "[---]", "[b-a]", "[a-a]", "[%--]", "[a\\]b]", "[\\]", "[\\\\]", "[a\\-z]", "[\\--a]",
+    "[[:alpha:]]", "[[:alpha:]", "[[:alpha]]", "[[:alpha:", "[[:", "[[:]", "[[::]]", "[[:foo:]]", "[[:alpha:]x]", "[^[:alpha:]]", "[^[:alpha:][:digit:]x]", "[[:alpha:]-z]", "[a-[:alpha:]]",
+    "[[.a.]]", "[[=a=]]", "[[.", "[[=", "[x[.a.]]", "[[]", "[[a]", "[a[]", "[^^]", "[^-a]", "[a^]", "[ab][^ab]", "[a-cb-e]", "[^a-cb-e]", "[^a-cx-z]", "[^a-c]", "[^c-ea-b]", "[^ace]", "[^aa]", "[^a-ca]",
+    "[A-z]", "[a-zA-Z]", "[^a-zA-Z]", "[X-c]", "[^X-c]", "[0-9a-f]", "[az]", "[^az]", "[@-\\[]", "[`-{]", "[^`-{]",
+    "\\", "a\\", "\\\\", "\\a", "\\t\\n\\r\\f\\a\\e", "\\w", "\\W", "\\s", "\\S", "\\d", "\\D", "\\w+\\W", "\\b", "\\B", "\\<", "\\>", "\\<a\\>", "\\1", "(a)\\1", "\\9", "\\0", "\\.", "\\*", "\\(", "\\)", "\\|", "\\{", "\\[", "\\A", "\\z", "\\y",
+    "\\x", "\\x4", "\\x41", "\\x414", "\\xg", "\\x4g", "\\x{41}", "\\x{}", "\\x{", "\\x{4", "\\x{4g}", "\\x{0041}", "\\x{41}*", "a\\x", "\\x*", "\\x{61}{2}",
+    "\\Q", "\\Qa", "\\Qa*", "\\Qa*\\E", "\\Qa*\\E*", "\\Q\\E", "\\Q\\Ea", "a\\Q", "\\Qa\\Eb|c", "(\\Qa)\\E)", "(\\Q)", "\\Q(\\E", "\\E", "a\\E", "\\Qa|b\\E|c", "\\Q[a]\\E[a]", "\\QaB\\E", "\\Q\\", "\\Q\\E\\", "\\Qa\\E{2}", "\\Q*\\E", "x\\Q\\E*",
+    ".", ".*", "^", "$", "^$", "^a$", "a^b", "a$b", "(^a)", "(a$)", "^*a", "a|^b", ".^", "A", "aB", "[A]", "[aB]", "Z{2}", "(A|b)*", "(?:a)", "(?i)a", "(?", "a(?#x)",
+]
+PARSE_ALPHA_WIDE = "a()|*+?{}1,[]^-\\$.:xQE"
+PARSE_ALPHA_DEEP = "a(|)*{1,}[]\\^"
+
+
+def parse_patterns(ctx, cases):
+    """(flags, pattern) requests for the P comparison: every pattern text of the match campaign under its own
+    IGNORECASE flag, the hand-written parser list under flags 0/1/8, every string up to length 3 over a 22-character
+    alphabet of ERE syntax, every string up to length 4 over 12 of them, seeded random syntax soup of length 5..12"""
+    rng = ctx.rng
+    quick = ctx.tier == "quick"
+    req, seen = [], set()
+
+    def add(fl, p, fam):
+        if "\n" in p or "\r" in p or "\0" in p: return
+        if any(ord(ch) > 127 for ch in p): return      # ASCII pattern text (the two sides read bytes / UTF-8; case tables are ASCII)
+        if (fl, p) in seen: return
+        seen.add((fl, p)); req.append((fl, p, fam))
+    for c in cases:
+        add(c.icase & 1, c.pat, "campaign")
+    for p in PARSE_HAND:
+        for fl in (0, 1, 8, 9): add(fl, p, "hand")
+    for n in range(0, 4):
+        for t in itertools.product(PARSE_ALPHA_WIDE, repeat=n):
+            add(0, ''.join(t), "exh-wide")
+    for n in range(4, 5 if quick else 6):
+        for t in itertools.product(PARSE_ALPHA_DEEP, repeat=n):
+            add(0, ''.join(t), "exh-deep")
+    for t in itertools.product("aB[]^-\\(", repeat=4):
+        add(1, ''.join(t), "exh-icase")
+    soup = PARSE_ALPHA_WIDE + "ab[](){}|*\\" + "bBz9 "
+    for _ in range(12000 if quick else 150000):
+        n = rng.randrange(5, 13)
+        add(rng.choice((0, 0, 1, 8)), ''.join(rng.choice(soup) for _ in range(n)), "soup")
+    return req
+
+
+def parse_level(ctx, libdir, cases, stats):
+    """tre_parse() (harness P request: the tre_ast_node_t tree) against Hawk.Rex.Tre.parse (driver P request).
+    -> (number of patterns compared, [(flags, pattern, harness line, lean line)] differences)"""
+    exe = C.cc_harness(ctx, os.path.join(C.VERIF, "harness", "rexparse_h.c"), link_lib=libdir)
+    req = parse_patterns(ctx, cases)
+    # patches/tre-parse-overread.diff present in the tree under test?  then: exact-size pattern buffers in the harness
+    # (a read behind the pattern is a sanitizer report) and the model of the repaired end-of-pattern behaviour
+    try:
+        patched = "ctx->re < ctx->re_end && *ctx->re == CHAR_CARET" in open(os.path.join(C.REPO, "lib", "tre-parse.c"), errors="replace").read()
+    except OSError:
+        patched = False
+    stats['tre_parse_overread_patch_present'] = patched
+    hargs = ["exact"] if patched else []
+    lines = ["P %d %s" % (fl | (32 if patched else 0), p) for fl, p, _ in req]
+    drv = C.driver_exe(ctx)
+    nchunk = 4
+    step = (len(lines) + nchunk - 1) // nchunk
+
+    def one(k):
+        part = lines[k * step:(k + 1) * step]
+        if not part: return [], []
+        hout = []
+        i = 0
+        while i < len(part):
+            rc_, cout, cerr = C.run_harness(exe, ["60"] + hargs, part[i:], timeout=300 + len(part) // 50)
+            st = C.classify_rc(rc_, cerr)
+            if cout and cout[-1] == "HANG": st = "HANG"; cout = cout[:-1]
+            hout += cout[:len(part) - i]
+            i = len(hout)
+            if i < len(part):
+                hout.append("DIED %s %s" % (st, (cerr or "")[-300:].replace("\n", " | "))); i += 1
+        data = ("\n".join(part) + "\n").encode()
+        rc, out, err = C.sh([drv, "rex"], input_=data, timeout=300 + len(part) // 50)
+        mout = out.decode(errors="replace").split("\n")[:-1] if rc == 0 else []
+        return hout, mout
+    with ThreadPoolExecutor(max_workers=nchunk) as ex:
+        res = list(ex.map(one, range(nchunk)))
+    hall = [x for h, _ in res for x in h]
+    mall = [x for _, m in res for x in m]
+    diffs, died = [], []
+    byfam, errs, shapes = {}, {}, {}
+    compared = 0
+    for i, (fl, p, fam) in enumerate(req):
+        h = hall[i] if i < len(hall) else None
+        m = mall[i] if i < len(mall) else None
+        if h is not None and h.startswith("DIED"):
+            died.append((fl, p, h)); continue
+        if m == "ERR APPROX" or (h is not None and (h.endswith(" approx") or ",params)" in h)):
+            _bump(stats, 'parse_approx_syntax_skipped'); continue
+        compared += 1
+        _bump(byfam, fam)
+        if h is not None and h.startswith("ERR "): _bump(errs, h[4:])
+        elif h is not None:
+            for k, ch in (("union", "U("), ("cat", "C("), ("iter", "I("), ("empty", "E:"), ("assert", "A"), ("backref", "B"), ("class", "c"), ("negclass", "!"), ("anychar", "-M@")):
+                if ch in h: _bump(shapes, k)
+        if h != m:
+            diffs.append((fl, p, h, m))
+    # which parser the M/A requests of the match campaign used (driver T request): "tre" = the transcription of tre_parse
+    tl = ["T %d %s" % (fl, p) for fl, p, fam in req if fam == "campaign"]
+    how = {}
+    if tl:
+        for x in C.run_driver(ctx, "rex", tl, timeout=300):
+            _bump(how, x if not x.startswith("PERR") else "PERR")
+    stats['parse_level'] = dict(patterns=compared, by_family=byfam, rejected_by_class=errs, trees_with=shapes, differences=len(diffs),
+                                campaign_patterns_matched_through=how)
+    return compared, diffs, died
+
+
+def parse_diff_to_input(ctx, exe, diffs, limit=40):
+    """try to turn a parse-level difference into a failing (pattern, subject): the awk-level matcher on the real tree
+    against the verified matcher on the model's tree, every subject up to length 3 over the pattern's own letters.
+    -> (flags, pattern, subject, notbol, hawk answer, leftmost-longest answer of the model tree) or None"""
+    drv = C.driver_exe(ctx)
+    for fl, p, h, m in diffs[:limit]:
+        if (fl & 8) or m is None or m.startswith("ERR") or h is None or h.startswith("ERR") or "\t" in p: continue
+        alpha = ''.join(sorted(set(ch for ch in p if ch.isalnum())))[:3] or "ab"
+        line = "A %d 3 %s %s" % ((fl & 1) | 2 | 16, alpha, p)
+        cout, st, cerr = _harness(exe, [line], 60, 120)
+        rc, out, err = C.sh([drv, "rex"], input_=(line + "\n").encode(), timeout=120)
+        mout = out.decode(errors="replace").split("\n")[:-1] if rc == 0 else []
+        if len(cout) != 1 or len(mout) != 1 or cout[0].startswith("CERR") or cout[0] in ("SLOW", "HANG") or mout[0].startswith("PERR"): continue
+        bt = split_cols(cout[0])['bt']; ll = mout[0].split(';')
+        pairs = [(s_, nb) for s_ in subjects(alpha, 3) for nb in (0, 1)]
+        if len(bt) != len(ll) or len(pairs) != len(bt): continue
+        for (s_, nb), a, b in zip(pairs, bt, ll):
+            if a != b:
+                return fl, p, s_, nb, a, b
+    return None
+
+
+
+def submatch_survey(ctx, libdir, stats):
+    """submatch vectors (groups 0..9) of the backtracking and the parallel matcher and of glibc on every ERE tree of
+    size <= 4 with a group (no anchors, no empty alternative) x every subject over {a,b} up to length 4.
+    Oracle: the two engines agree on the whole vector.  Measured only: distance to glibc where the overall match agrees
+    (POSIX subexpression rules; no Lean specification of submatches yet).  -> (pairs, [(pattern, subject, line)])"""
+    exe = C.cc_harness(ctx, os.path.join(C.VERIF, "harness", "rexsub_h.c"), link_lib=libdir)
+    pats = [p for p in exhaustive_patterns(4) if '(' in p and '^' not in p and '$' not in p and '()' not in p and '(|' not in p and '|)' not in p]
+    subs = subjects("ab", 4)
+    lines = ["%s\t%s" % (p, s_) for p in pats for s_ in subs]
+    rc, out, err = C.run_harness(exe, [], lines, timeout=600)
+    st = dict(pairs=0, engines_agree=0, equal_to_glibc=0, differs_from_glibc=0, differs_from_glibc_without_nullable_operator=0, overall_match_differs=0)
+    bad, ex = [], None
+    if C.classify_rc(rc, err) != "ok" or len(out) != len(lines):
+        bad.append(("", "", "submatch harness: %s, %d of %d answers; %s" % (C.classify_rc(rc, err), len(out), len(lines), err[-300:])))
+    for l, o in zip(lines, out):
+        if o in ("CERR", "GERR", "bad"): continue
+        d = dict(x.split("=", 1) for x in o.split(" "))
+        st['pairs'] += 1
+        p, s_ = l.split("\t")
+        if d['bt'] == d['pa']: st['engines_agree'] += 1
+        else: bad.append((p, s_, o))
+        w = lambda v: v.split(",")[0]
+        if w(d['bt']) != w(d['gl']): st['overall_match_differs'] += 1; continue    # the overall match is judged by the main campaign
+        if d['bt'] == d['gl']: st['equal_to_glibc'] += 1
+        else:
+            st['differs_from_glibc'] += 1
+            if not any(x in p for x in ("*", "?", "{0")):
+                st['differs_from_glibc_without_nullable_operator'] += 1
+                if ex is None or (len(l), l) < (len(ex[0]), ex[0]): ex = (l, o)
+    if ex: st['smallest_difference_without_nullable_operator'] = "/%s/ on %r: %s" % (ex[0].split("\t")[0], ex[0].split("\t")[1], ex[1])
+    stats['submatch_survey'] = st
+    return st['pairs'], bad
+
+
+
 def build_cases(ctx):
     rng = ctx.rng
     quick = ctx.tier == "quick"
@@ -1589,6 +1768,46 @@ def run(ctx):
     ctx.log("pairs: %d evaluated in %.1fs (+%d language-level observations); signatures: %s; unclassified: %d; corr: %d" % (
         evaluations, time.time() - t1, lang_evals, {k: v['count'] for k, v in sigs.items()}, len(unclassified), len(corr)))
     evaluations += lang_evals
+    # submatch vectors: both engines must agree; distance to glibc is measured (stats['submatch_survey'])
+    nsubm, subbad = submatch_survey(ctx, libdir, stats)
+    evaluations += nsubm
+    ctx.log("submatch survey: %s" % stats['submatch_survey'])
+    for p, s_, o in subbad[:1]:
+        ctx.problem("impl", "the two matching engines report different submatch offsets: /%s/ on %r: %s" % (p, s_, o),
+                    "# feed to harness/rexsub_h.c: pattern<TAB>subject\n%s\t%s\n# %s\n" % (p, s_, o), found_input=True)
+    # table-shaped parts of tre-parse.c the model hard-codes (tre_macros[], ASSERT_AT_*, MAX_NEG_CLASSES): re-read from
+    # the tree under test and compared with lean/HawkModel/RexParse.lean on every run (extract/tre_tables.py, fails closed)
+    try:
+        import importlib.util
+        spec = importlib.util.spec_from_file_location("tre_tables", os.path.join(C.VERIF, "extract", "tre_tables.py"))
+        tt = importlib.util.module_from_spec(spec); spec.loader.exec_module(tt)
+        tdiffs, tcount = tt.check()
+        stats['tre_tables'] = dict(tcount, differences=len(tdiffs))
+    except Exception as e:      # unknown source shape: fail closed
+        tdiffs = ["extract/tre_tables.py could not read the sources: %s: %s" % (type(e).__name__, e)]
+    if tdiffs:
+        ctx.problem("corr", "the tables of tre-parse.c / tre-prv.h differ from the ones the Lean transcription hard-codes (%d): %s" % (len(tdiffs), "; ".join(tdiffs[:4])),
+                    "# python3 extract/tre_tables.py\n" + "\n".join(tdiffs) + "\n", found_input=False)
+    # parse level: the tree tre_parse() builds against the Lean transcription of tre-parse.c
+    t3 = time.time()
+    npar, pdiffs, pdied = parse_level(ctx, libdir, cases, stats)
+    ctx.log("parse level: %d patterns, tre_parse tree vs Hawk.Rex.Tre.parse in %.1fs; differences: %d; died: %d; rejected by class: %s" % (
+        npar, time.time() - t3, len(pdiffs), len(pdied), stats['parse_level']['rejected_by_class']))
+    evaluations += npar
+    for fl, p, h in pdied[:1]:
+        ctx.problem("impl", "harness died in tre_parse on pattern %r (flags %d): %s" % (p, fl, h), "# feed to harness/rex_h.c\nP %d %s\n" % (fl, p), found_input=True)
+    if pdiffs:
+        pdiffs.sort(key=lambda d: (len(d[1]), d[1]))
+        hit = parse_diff_to_input(ctx, exe, pdiffs)
+        if hit:
+            fl, p, s_, nb, a, b = hit
+            h, m = [(x[2], x[3]) for x in pdiffs if x[0] == fl and x[1] == p][0]
+            ctx.problem("impl", "tre_parse() reads pattern %r (icase=%d) differently from the ERE grammar (%d patterns differ) and the match changes: on %r (notbol=%d) hawk -> %s, leftmost-longest match of the pattern -> %s; tre_parse tree %s, expected %s" % (
+                p, fl & 1, len(pdiffs), s_, nb, a, b, h, m),
+                "# M <flags> <eflags> <pattern><TAB><subject>; then the trees\nM %d %d %s\t%s\nP %d %s\n# tre_parse: %s\n# model    : %s\n" % (fl & 1, nb, p, s_, fl, p, h, m), found_input=True)
+        fl, p, h, m = pdiffs[0]
+        ctx.problem("corr", "%d patterns where tre_parse() and its Lean transcription (HawkModel/RexParse.lean) build different trees or reject differently; shortest: flags=%d pattern %r: tre_parse -> %s ; model -> %s — theorems parse_* / ast_* in Props/C06.lean speak about the model parser" % (
+            len(pdiffs), fl, p, h, m), "# P <flags> <pattern> (flags bit 0 = IGNORECASE, bit 3 = NOBOUND)\nP %d %s\n# tre_parse: %s\n# model    : %s\n" % (fl, p, h, m), found_input=False)
 
     # (1a) crashes / hangs / sanitizer reports.  A watchdog expiry on a *random* (large) pattern is only counted:
     #      a backtracking matcher may legitimately need exponential time; on the small exhaustive families it is a hang.
@@ -1647,16 +1866,18 @@ def run(ctx):
             "IGNORECASE/case-sensitivity runs over {a,A,b}; every bracket of one or two items (letters and ranges over a..e in both cases, negated or not) in 4 contexts x IGNORECASE x every subject up to length 2 over {a,A,b,B,c,C,d,D,z,Z}; named classes alone or with one character, negated or not, bare and inside expanded repeats, over {a,B,1,z}; products of <= 3 of %d hand-picked factors; seeded random trees of size 5-12 (with {m,n}, ranges, A) on short exhaustive and longer random subjects; "
             "escaped literals; TRE extensions the specification covers (\\w \\W \\s \\S \\d \\D, \\< \\> \\b \\B incl. every tree of size <= 3 over them, control and hex escapes); all twelve named classes; collating symbols / equivalence classes; every interval form {m}{m,}{m,n} for m,n <= 3; patterns POSIX defines as invalid (must be rejected); NOTEOL (eflags 0..3); a sample of M requests through every entry point (hawk_tre_comp/exec NUL-terminated, execx, execbchars parallel, matchvalwithucs/bcs with a string value); "
             "language level ~ (literal and dynamic regex), match()/RSTART/RLENGTH, match(s,re,arr), str::match(s,re,start[,arr]), sub, gsub (variable, $0, array element), split on BOTH the character-string and the @b byte-string variant of each subject (nullable patterns included), regex FS, through the sanitized CLI. Each pair: bt/bb/pa engines vs python reference vs glibc vs Lean matchLL. "
+            "PARSE LEVEL: the tre_ast_node_t tree right after the real tre_parse() (node types, children, min/max/minimal, code ranges, positions, classes, negated classes, assertion bits, submatch ids and counts; or the reg_errcode class) against the Lean transcription of tre-parse.c for: every pattern text of the match campaign, a hand list of %d parser edge cases x {plain, IGNORECASE, NOBOUND, both}, every string of length <= 3 over the 22 characters a()|*+?{}1,[]^-\\$.:xQE, every string of length 4 (thorough: 5) over 12 of them, every string of length 4 over aB[]^-\\( under IGNORECASE, seeded random syntax soup of length 5..12; a difference is turned into a failing (pattern, subject) when the awk-level match differs from the verified matcher on the model's tree. "
             "distinct_nontrivial = pairs whose leftmost-longest match does not start at 0 or is a proper non-empty prefix of the subject" % (
-                (4, 5, len(FACTORS)) if ctx.tier == "quick" else (5, 5, len(FACTORS)))) + ("" if ctx.tier == "quick" else "; thorough also: size <= 4 on subjects up to length 6")
+                (4, 5, len(FACTORS), len(PARSE_HAND)) if ctx.tier == "quick" else (5, 5, len(FACTORS), len(PARSE_HAND)))) + ("" if ctx.tier == "quick" else "; thorough also: size <= 4 on subjects up to length 6")
     return C.finish(ctx, [proof], evaluations, nontriv, rule,
                     samples,
                     extra_cov=dict(stats, excluded_constructs=EXCLUDED),
-                    trusted=["TRE (tre-parse.c, tre-compile.c, tre-match-bt.c, tre-match-pa.c) is NOT modelled: the implementation claim is the bounded exhaustive comparison above, not a proof",
-                             "ERE text -> Re parser in Drv/Rex.lean is unverified (cross-checked by the python parser/reference matcher and glibc on every pair)",
+                    trusted=["TRE's automaton construction and its two simulations (tre-compile.c, tre-match-bt.c, tre-match-pa.c) are NOT modelled: for them the implementation claim is the bounded exhaustive comparison above, not a proof",
+                             "tre-parse.c IS modelled (lean/HawkModel/RexParse.lean) and tied tree-by-tree to the real tre_parse() by the P requests (harness/rexparse_h.c); the Lean side of every M/A request matches with the tree of that transcription (Tre.toRe, matched case-sensitively) whenever the older hand-written parser of Drv/Rex.lean also accepts the text (it only gates which constructs the specification covers); not proved: that the recursion budget of Tre.parse always suffices (answer STUCK, never observed), toRe for negated class lists and class leaves under REG_ICASE (outside Ast.plain; tied by the campaign only)",
+                             "not modelled in the parser: TRE's approximate-matching syntax inside {} (model answers APPROX, skipped), code points above 127 under REG_ICASE",
                              "python reference matcher and tre_view (TRE's empty-path rule) in vlib/props/c06.py decide signatures"],
                     assumptions=["ASCII subjects without NUL or newline (REG_NEWLINE is never set by hawk); case folding = ASCII tolower; named classes alpha/digit/upper/lower/alnum with their ASCII meaning",
-                                 "REXBOUND trait on (default): {m,n} is an interval", "sub-match offsets are not compared (only the overall match)"])
+                                 "REXBOUND trait on (default): {m,n} is an interval (NOBOUND is compared at the parse level only)", "sub-match offsets: only engine-against-engine (submatch survey); against POSIX they are measured, not judged (TRE deviates from glibc for iterated groups, see stats submatch_survey)"])
 
 
 def replay(ctx, path):
@@ -1669,6 +1890,16 @@ def replay(ctx, path):
             cases.append(case_from_line(l, "replay"))
     out, crashes = run_both(ctx, exe, cases, workers=1)
     badn = 0
+    plines = [l.rstrip("\n") for l in open(path) if l.startswith("P ")]
+    if plines:
+        pexe = C.cc_harness(ctx, os.path.join(C.VERIF, "harness", "rexparse_h.c"), link_lib=libdir)
+        hout, st, cerr = _harness(pexe, plines, 60, 300)
+        mout = C.run_driver(ctx, "rex", plines)
+        for i, l in enumerate(plines):
+            h = hout[i] if i < len(hout) else None
+            m = mout[i] if i < len(mout) else None
+            print(l); print("   tre_parse : %s" % h); print("   model     : %s" % m)
+            if h != m and m != "ERR APPROX": badn += 1
     for c, h, l in out:
         print("%s" % c.line.replace("\t", "<TAB>"))
         print("   impl : %s" % h)
